@@ -487,7 +487,7 @@ func endToEnd(c *hc.Ctx) error {
 		if err != nil {
 			return err
 		}
-		ctx, cancel := context.WithTimeout(context.Background(), 20*time.Second)
+		ctx, cancel := context.WithTimeout(context.Background(), 10*time.Minute)
 		sent := make([][][]byte, senders)
 		var wg sync.WaitGroup
 		sendErr := make(chan error, senders)
